@@ -157,16 +157,17 @@ Definition store_plain_ops (s : fs) (p : path) (sfx d : list Z) : list fsop * bo
   (pre ++ fst w, snd w).
 
 (* --- FileCache._store_single_color_tile(tile, tile_loc, color), sc = _single_color_tile_location(color).
-   (repaired code) The colour file is created if missing; if tile_loc already is (a link to) the colour file
-   (`same` = os.path.exists(tile_loc) and os.path.samefile(sc, tile_loc), observed on the real file system:
-   inode identity is not part of this model) nothing else happens; otherwise the link is created under the temp
+   (repaired code) The colour file is created if missing; in hardlink mode, if tile_loc already is a hard link
+   to the colour file (`same` = os.path.exists(tile_loc) and os.path.samefile(sc, tile_loc), observed on the real
+   file system: inode identity is not part of this model) nothing else happens (only an lstat for the tile
+   metadata, which changes nothing); otherwise - in symlink mode always - the link is created under the temp
    name tile_loc + '.tmp-N' and renamed over tile_loc.  EEXIST on the temp name: unlink it and re-raise. *)
 Definition link_op (hard : bool) (sc p : path) : fsop := if hard then OLink sc p else OSymlink sc p.
 
 Definition store_single_ops (s : fs) (p sc : path) (hard same : bool) (sfx sfx2 d : list Z) : list fsop :=
   let a := if exists_ s sc then ([], true) else store_plain_ops s sc sfx d in
   if snd a then
-    if same then fst a
+    if hard && same then fst a
     else
       let s1 := apply_ops s (fst a) in
       let t := tmp_of p sfx2 in
